@@ -234,6 +234,7 @@ let suite_decode full path =
                                Reader.rpos = !session.Reader.rpos };
                   decode_with !session (fun r' -> session := r')
               | 'R' -> decode_with !session (fun r' -> session := r')
+              | 'M' -> Buffer.add_string buf "mode"   (* how the source segments its bytes is invisible to the model *)
               | 'C' -> st := Decoder.cleanup_buffers !st;
                   Buffer.add_string buf (Printf.sprintf "cleanup %s" (state_str full !st))
               | 'X' ->
@@ -348,6 +349,7 @@ let suite_reader path =
       | idx :: src :: ops ->
           let pos = ref 0 in
           let tree = parse_ops (Array.of_list ops) pos in
+          let src = (match String.index_opt src '@' with Some k -> String.sub src 0 k | None -> src) in
           let r0 = ReaderConcrete.from_source (zs_of_hex src) in
           let ((r1, toks), res) = ReaderConcrete.run_ops reader_fuel false tree r0 in
           let ts = Stdlib.List.map tok_str toks in
